@@ -68,6 +68,8 @@ def _cases(draw, tier):
     filt = draw(st.integers(0, 5))
     cfg["comp"] = {4: 1}.get(filt, 0)
     cfg["checksum"] = 1 if filt == 5 else 0
+    if cfg["F"] * cfg["n"] < 1000 * cfg["d"]:
+        cfg["comp"] = cfg["checksum"] = 0  # (no chunked layout below one sample per file period: see strategies.rf_configs)
     ops = draw(S.write_ops(cfg, max_calls=6, max_files=3))
     m = rfmodel.Model(cfg)
     for op in ops:
